@@ -52,6 +52,8 @@ class HMCOperator(MCMCOperator, ParameterListener):
 
         if kwargs.get("find_reasonable_step_size", False):
             step_size = self._integrator.step_size
+            # the trial trajectories move the parameters: put them back
+            saved_tensors = [parameter.tensor.clone() for parameter in parameters]
             find_reasonable_step_size(
                 integrator,
                 parameters,
@@ -59,6 +61,8 @@ class HMCOperator(MCMCOperator, ParameterListener):
                 self.mass_matrix,
                 self.inverse_mass_matrix,
             )
+            for parameter, saved_tensor in zip(parameters, saved_tensors):
+                parameter.tensor = saved_tensor
             print(f"Step size: {self.id} = {self._integrator.step_size} ({step_size})")
 
         self._divergence_threshold = kwargs.get("divergence_threshold", 1000)
